@@ -56,6 +56,12 @@ def units(tier):
                     us.append({"name": f"rep{k}_s{si}_o{off}", "shape": {"kind": "win", "sent": sent, "off": off, "k": k, "mode": "replace"}})
                 if k == 2:
                     us.append({"name": f"ins{k}_s{si}_o{off}", "shape": {"kind": "win", "sent": sent, "off": off, "k": k, "mode": "insert"}})
+    # every sentence of C14's grammar generator (symbolic holes): accepted text must satisfy the
+    # acceptance clauses too (valid attributes, text form re-parses to the same result)
+    from checks import c14
+
+    for u in c14.units(tier):
+        us.append({"name": "gram_" + u["name"], "shape": {"kind": "gram", "c14": u["shape"]}})
     return us
 
 
@@ -96,7 +102,12 @@ def utf8_len(ctx, s):
 
 def body(ctx, shape):
     F = ctx.L.filter
-    if shape["kind"] == "raw":
+    if shape["kind"] == "gram":
+        from checks import c14
+
+        g = c14.G(ctx, shape["c14"])
+        s, _ = c14.gen(g, F, shape["c14"]["spec"], shape["c14"]["sp"])
+    elif shape["kind"] == "raw":
         n = shape["n"]
         s = ctx.str("s", n, 0, shape["hi"], surrogates=shape["sur"])
         if shape.get("part") is not None and n > 0:
